@@ -204,6 +204,27 @@ func runEval(hdr Header, c any, src string) CaseResult {
 			sampleInst = append(sampleInst, map[string]any{"instance": json.RawMessage(ij), "valid": want})
 		}
 	}
+	// history independence: the same instances once more on the same Resolved, in the opposite order
+	// (anything a Validate call left behind in the Resolved would now meet a different successor)
+	if len(res.Failures) == 0 {
+		for i := len(exp) - 1; i >= 0; i-- {
+			es := exp[i].(string)
+			if es == "x" || es == "?" {
+				continue
+			}
+			ij := abs.ValueJSON(insts[i])
+			var inst any
+			json.Unmarshal([]byte(ij), &inst)
+			res.Evals++
+			if verr := rs.Validate(inst); (verr == nil) != (es == "T") {
+				res.Failures = append(res.Failures, Failure{Kind: "verdict-history", Source: src, Abstract: c,
+					Concrete: map[string]any{"schema": u.concrete(), "instance": json.RawMessage(ij),
+						"history": "all instances of the case validated in order, then again in reverse order, on one Resolved"},
+					Expected: map[string]any{"valid": es == "T"}, Got: errText(verr)})
+				break
+			}
+		}
+	}
 	res.Nontrivial = sawT && sawF
 	res.Sample = map[string]any{"schema": u.concrete(), "verdicts": sampleInst}
 	return res
